@@ -510,7 +510,11 @@ func (c *diskCache) availableOrTryProxy(kind cache.EntryKind, hash string, size 
 					_ = f.Close()
 
 					c.mu.Lock()
-					c.lru.RemoveElement(listElem)
+					// Only remove the entry that we failed to read: since the lock
+					// was released another request may have removed or replaced it.
+					if cur, ok := c.lru.cache[key]; ok && cur == listElem && cur.Value.(*entry).value == item {
+						c.lru.RemoveElement(listElem)
+					}
 					c.mu.Unlock()
 				} else {
 					return rc, item.size, false, nil
